@@ -1348,6 +1348,19 @@ func init() {
 		}
 		return nil, false
 	})
+	for name, op := range map[string]Op{"math.Trunc": OFPTrunc, "math.Floor": OFPFloor, "math.Ceil": OFPCeil} {
+		op := op
+		nat := map[string]func(float64) float64{"math.Trunc": math.Trunc, "math.Floor": math.Floor, "math.Ceil": math.Ceil}[name]
+		reg(name, func(in *Interp, fn *ssa.Function, a []Value, c *frame, s ssa.Instruction) (Value, bool) {
+			switch x := a[0].(type) {
+			case float64:
+				return nat(x), true
+			case SymF:
+				return symFloat(mkFPRound(op, x.t)), true
+			}
+			return nil, false
+		})
+	}
 	reg("math.Abs", func(in *Interp, fn *ssa.Function, a []Value, c *frame, s ssa.Instruction) (Value, bool) {
 		switch x := a[0].(type) {
 		case float64:
